@@ -427,9 +427,9 @@ func (e *c14Env) actBulkStore(w *vWorld) {
 // transactions evolve independently of the original.
 func TestVerifC14Blocks(t *testing.T) {
 	st := vs.New("C14", t)
-	maxBlocks, maxSteps, bulkN := 4, 14, 40
+	maxBlocks, maxSteps, bulkN := 4, 20, 40
 	if vs.Thorough() {
-		maxBlocks, maxSteps, bulkN = 6, 24, 200
+		maxBlocks, maxSteps, bulkN = 6, 30, 200
 	}
 	vs.Check(t, 1, func(rt *rapid.T) {
 		c := st.Case()
@@ -465,6 +465,7 @@ func TestVerifC14Blocks(t *testing.T) {
 			crossRecreate bool
 			flushed       bool
 			siblings      int
+			lastFlushed   common.Hash // a root that already is the disk layer cannot be flushed again
 		)
 		for b := 0; b < nBlocks; b++ {
 			rs := schedule[b]
@@ -548,7 +549,7 @@ func TestVerifC14Blocks(t *testing.T) {
 			c14CheckUpdate(rt, upd, pre, post, rs.r.IsCancun)
 			e.tracer = w.trace
 			e.checkCommitted(newRoot, post, rs, fmt.Sprintf("block %d", b))
-			if rapid.IntRange(0, 2).Draw(rt, "flush") == 0 && newRoot != types.EmptyRootHash && newRoot != root {
+			if rapid.IntRange(0, 2).Draw(rt, "flush") == 0 && newRoot != types.EmptyRootHash && newRoot != root && newRoot != lastFlushed {
 				// push everything to disk (path: flatten the layer tree; hash: write nodes;
 				// snapshot: flatten into the disk layer) and read again
 				if err := e.db.tdb.Commit(newRoot, false); err != nil {
@@ -559,7 +560,7 @@ func TestVerifC14Blocks(t *testing.T) {
 						w.fail("snapshot Cap(%x,0): %v", newRoot, err)
 					}
 				}
-				flushed = true
+				flushed, lastFlushed = true, newRoot
 				e.checkCommitted(newRoot, post, rs, fmt.Sprintf("block %d after flush", b))
 			}
 			ntRecreate = ntRecreate || w.destructRecreate
